@@ -549,6 +549,7 @@ func (n *networkService) gcPods(ctx context.Context) error {
 	podResources := getPodResources(objList)
 
 	uidInLocal := sets.New[string]()
+nextPod:
 	for _, podRes := range podResources {
 		if podRes.PodInfo != nil {
 			if podRes.PodInfo.PodUID != "" {
@@ -617,7 +618,9 @@ func (n *networkService) gcPods(ctx context.Context) error {
 					ctx = logr.NewContext(ctx, serviceLog)
 					err = gcPolicyRoutes(ctx, v.ENIInfo.MAC, containerIP, podRes.PodInfo.Namespace, podRes.PodInfo.Name)
 					if err != nil {
-						return err
+						// keep the record, retry on the next pass; do not block the other pods
+						serviceLog.Error(err, "error gc policy routes", "pod", podID)
+						continue nextPod
 					}
 				}
 			}
@@ -631,13 +634,15 @@ func (n *networkService) gcPods(ctx context.Context) error {
 				NetworkResources: []eni.NetworkResource{res},
 			})
 			if err != nil {
-				return err
+				serviceLog.Error(err, "error release pod resource", "pod", podID)
+				continue nextPod
 			}
 		}
 
 		err = n.deletePodResource(podRes.PodInfo)
 		if err != nil {
-			return err
+			serviceLog.Error(err, "error delete pod resource", "pod", podID)
+			continue
 		}
 		uidInLocal.Delete(podRes.PodInfo.PodUID)
 		serviceLog.Info("removed pod", "pod", podID)
